@@ -87,8 +87,22 @@ def chain_cases(rng, n_random):
     return out
 
 
+PTYPES = ["Fraction", "np.float64", "np.float32", "np.int64", "np.int32", "float"]
+
+
+def ptypes_for(u, route):
+    """numeric types in which every constant power of the route can be written"""
+    es = [2 * e if route == "sqrt" else e for _, e in u]
+    ints = all(e.denominator == 1 for e in es)
+    # binary32 thirds are fine here: the printer rounds every exponent to a denominator <= 10
+    return [t for t in PTYPES if ints or t not in ("np.int64", "np.int32")]
+
+
 def build(q, u, route, mk):
-    """a quantity (or array) whose unit is u, built through arithmetic; mk(sym_unit_string)"""
+    """a quantity (or array) whose unit is u, built through arithmetic; mk(sym_unit_string).
+    route 'powers|T', 'quotient|T', 'sqrt|T': the constant powers are handed over as objects of
+    the numeric type T (Fraction, numpy scalars, float) instead of int / binary64 quotient"""
+    route, _, ptype = route.partition("|")
     if route == "string":
         return mk(X.unit_string(u))
     if route.startswith("chain:"):
@@ -99,7 +113,7 @@ def build(q, u, route, mk):
 
     def powr(k, e):
         x = mk(k)
-        return x if e == 1 else x ** num(e)
+        return x if e == 1 else x ** (X.num_obj(e, ptype) if ptype else num(e))
     if route == "powers":
         r = None
         for k, e in u:
@@ -125,7 +139,7 @@ def build(q, u, route, mk):
     return (1 / d) if n is None else n / d
 
 
-def observe(q, u, frac, route, arrays):
+def observe(q, u, frac, route, arrays, faults=True):
     out = {"route": route}
     X.reset(q)
     q.set_unit_style(q.UnitStyle.FRACTION if frac else q.UnitStyle.EXPONENTS)
@@ -139,9 +153,26 @@ def observe(q, u, frac, route, arrays):
             out["build_exception"] = "{}: {}".format(type(e).__name__, e)
             return out
         out["parsed"] = X.impl_parse(s) if s else ("ok", ())
+        # FAULTS: requests that are rejected (caught) must leave style, quantity and array alone
+        flog = out["faults"] = []
+
+        def fault(what, f):
+            try:
+                f()
+                flog.append([what, "accepted"])
+            except Exception as e:  # noqa: BLE001
+                flog.append([what, type(e).__name__])
+        if faults:
+            fault("set_unit_style('garbage')", lambda: q.set_unit_style("garbage"))
+            fault("a.unit = a.unit + ')'", lambda: setattr(x, "unit", s + ")"))
+            fault("a.unit = 5", lambda: setattr(x, "unit", 5))
+            out["s_after_faults"] = x.unit
         try:
             b = q.Measurement(1.0, 0.1)
             b.unit = s
+            if faults:
+                fault("b.unit = 'm2'", lambda: setattr(b, "unit", "m2"))
+                fault("b.unit = a.unit + '^'", lambda: setattr(b, "unit", s + "^"))
             out["assign"] = ("ok", b.unit)
         except Exception as e:  # noqa: BLE001
             out["assign"] = ("reject", type(e).__name__)
@@ -158,6 +189,11 @@ def observe(q, u, frac, route, arrays):
                 out["arr_build_exception"] = "{}: {}".format(type(e).__name__, e)
                 arr = None
             if arr is not None:
+                if faults:
+                    fault("array.unit = 'kg*m/s^2)'", lambda: setattr(arr, "unit", "kg*m/s^2)"))
+                    fault("array.append('abc')", lambda: arr.append("abc"))
+                    fault("array[0] = (1, -1)", lambda: arr.__setitem__(0, (1.0, -1.0)))
+                    out["arr_unit_after_faults"] = (arr.unit, len({el.unit for el in arr}))
                 for opname, fn in (("append", lambda a: a.append((4.0, 0.1))),
                                    ("insert", lambda a: a.insert(1, 2.5)),
                                    ("setitem", lambda a: (a.__setitem__(0, (5.0, 0.5)), a)[1])):
@@ -193,6 +229,22 @@ def judge(u, frac, o, m_print, m_parse):
                           oracle="independent", what="the printed unit {!r} parses to other "
                           "exponents".format(s), impl=X.show(val), expected=X.show(want),
                           clause="same exponents"))
+    if any(x[1] == "accepted" for x in o.get("faults", [])):
+        pass    # a request meant to be rejected was accepted (C12 / C20 statement): not judged here
+    else:
+        if "s_after_faults" in o and o["s_after_faults"] != s:
+            fails.append(dict(base, signature="c13:fault-changed-unit:{}:{}".format(style, sh),
+                              oracle="independent", what="after rejected requests ({}) the unit "
+                              "reads {!r}, was {!r}".format(", ".join(x[0] for x in o["faults"][:3]),
+                                                           o["s_after_faults"], s),
+                              impl=o["s_after_faults"], expected=s, clause="a rejected request changes nothing"))
+        if "arr_unit_after_faults" in o and o["arr_unit_after_faults"] != (o.get("arr_unit"), 1):
+            fails.append(dict(base, signature="c13:fault-changed-array-unit:{}:{}".format(style, sh),
+                              oracle="independent", what="after rejected requests the array's unit "
+                              "reads {!r} (distinct element units: {}), was {!r}".format(
+                                  o["arr_unit_after_faults"][0], o["arr_unit_after_faults"][1], o.get("arr_unit")),
+                              impl=o["arr_unit_after_faults"], expected=o.get("arr_unit"),
+                              clause="a rejected request changes nothing"))
     for key, what in (("assign", "b.unit = a.unit"), ("ctor", "Measurement(unit=a.unit)")):
         r = o.get(key)
         if r and r[0] != "ok":
@@ -302,7 +354,11 @@ def run(ctx, cases, ref=False, use_model=True):
     same = 0
     for (u, frac, route, arrays), o, a, b in zip(cases, obs, mp, ms):
         dist["style:" + ("fraction" if frac else "exponents")] += 1
-        dist["route:" + route.split(":")[0]] += 1
+        dist["route:" + route.split(":")[0].split("|")[0]] += 1
+        if "|" in route:
+            dist["powertype:" + route.split("|")[1]] += 1
+        for x in o.get("faults", []):
+            dist["fault:{}:{}".format(x[0], x[1])] += 1
         if route.startswith("chain:"):
             p1, p2 = (F(x) for x in route.split(":")[1:])
             if any(chain_value(float(e / (p1 * p2)), p1, p2) != float(e) for _, e in u):
@@ -329,6 +385,9 @@ def gen_cases(rng, n, arrays_every=4):
     for i, u in enumerate(sample_maps(rng, n)):
         for frac in (True, False):
             route = rng.choice(routes_for(u))
+            ts = ptypes_for(u, route) if route != "string" else []
+            if ts and rng.random() < 0.5:
+                route += "|" + rng.choice(ts)      # ARGUMENT TYPES of the constant powers
             cases.append((u, frac, route, i % arrays_every == 0))
     # chains of two constant float powers (both styles; every 3rd also on arrays)
     for i, (u, route) in enumerate(chain_cases(rng, max(20, n // 10))):
